@@ -700,6 +700,12 @@ def standard_solver(prog: Program, rep) -> None:
     cd = prog.func("pygradflow.step.solver.standard_step_solver.StandardStepSolver._compute_deriv")
     st = [x for x in own_nodes(cd.node) if isinstance(x, ast.Assign) and any(U(t) == "self.deriv" for t in x.targets)]
     ok = len(st) == 1 and U(st[0].value) == "self.func.deriv(self.jac, self.hess, self.active_set)"
+    if not ok and len(st) == 1 and isinstance(st[0].value, ast.Call) and U(st[0].value.func) == "self.func.deriv":
+        # the same call with keyword arguments: bound by the parameter names of every `deriv` it can reach
+        tg = [t for t in prog.resolve_call_target(cd, st[0].value) if isinstance(t, FuncInfo)]
+        bs = [bind_args(t, st[0].value) for t in tg]
+        ok = bool(tg) and all(b is not None and [U(b[p_]) for p_ in [q for q in t.params if q != "self"][:3]] == ["self.jac", "self.hess", "self.active_set"]
+                              and len([q for q in t.params if q != "self"]) == 3 for t, b in zip(tg, bs))
     rep.check(ok, "standard-solver-wiring", cd.qualname, short(st[0]) if st else "", "the system matrix is func.deriv(jac, hess, active_set) of the same func and active set", cd.loc())
     ud = prog.func("pygradflow.step.solver.standard_step_solver.StandardStepSolver.update_derivs")
     itq = [p for p in ud.params if p != "self"][0]
